@@ -140,6 +140,8 @@ class Live(JupyterMixin, RenderHook):
             if self._started:
                 return
 
+            # nothing is drawn yet: a frame left by an earlier start/stop cycle must not be erased
+            self._live_render._shape = None
             self.console.show_cursor(False)
             self._enable_redirect_io()
             self.console.push_render_hook(self)
